@@ -74,6 +74,15 @@ KF_back_enclosing_p(pid) == \E u \in TaskKeys(pid) : RedoOfEnclosing(pid, u)
 KF_back_enclosing_anc(pid, t) ==
   \E u \in TaskKeys(pid) : RedoOfEnclosing(pid, u) /\ t \in AncSet(P(pid), u)
 
+(* KF_back_leaves_siblings: `back` out of a step with several branches marks  *)
+(* the running tasks on its own path completed but leaves the tasks of the    *)
+(* other branches open beneath the step it has just marked completed          *)
+(* (context.rs:287-325 closes the act's siblings and the path only).          *)
+KF_back_leaves_siblings(pid, u) ==
+  \E s \in AncSet(P(pid), u) :
+    /\ ND(pid, s).kind = "step" /\ TS(pid, s).st = "completed"
+    /\ \E a \in Desc(P(pid), s) : ND(pid, a).kind = "act" /\ TS(pid, a).st = "backed"
+
 (* KF_action_on_running_act: a terminal client action is admitted on an act  *)
 (* that is RUNNING, i.e. revived by its own catch (or, for generator acts,   *)
 (* waiting for the acts it generated), and closes it over the tasks that    *)
@@ -145,7 +154,8 @@ V_C03_ParentDone ==
   UNION { UNION { { V("C03_ParentDone", pid, u,
                       {k \in {"KF_back_enclosing"} : KF_back_enclosing(pid, u)}
                       \cup {k \in {"KF_action_on_running_act"} : KF_action_on_running_act(pid, u)}
-                      \cup {k \in {"KF_step_timeout_review"} : KF_step_timeout_review(pid, u)})
+                      \cup {k \in {"KF_step_timeout_review"} : KF_step_timeout_review(pid, u)}
+                      \cup {k \in {"KF_back_leaves_siblings"} : KF_back_leaves_siblings(pid, u)})
                     : u \in { x \in Desc(P(pid), t) : ~IsDone(TS(pid, x).st) } }
                   : t \in { x \in TaskKeys(pid) : TS(pid, x).st = "completed" } }
           : pid \in LivePids }
@@ -178,7 +188,8 @@ V_C03_CleanEnding ==
   UNION { { V("C03_CleanEnding", pid, t,
               {k \in {"KF_back_enclosing"} : KF_back_enclosing(pid, t)}
               \cup {k \in {"KF_action_on_running_act"} : KF_action_on_running_act(pid, t)}
-              \cup {k \in {"KF_step_timeout_review"} : KF_step_timeout_review_p(pid)})
+              \cup {k \in {"KF_step_timeout_review"} : KF_step_timeout_review_p(pid)}
+              \cup {k \in {"KF_back_leaves_siblings"} : KF_back_leaves_siblings(pid, t)})
             : t \in { x \in TaskKeys(pid) : ~IsDone(TS(pid, x).st) } }
           : pid \in { q \in LivePids : procs[q].ev.kinds = {"complete"} } }
 
@@ -284,7 +295,9 @@ V_C06_CatchStepsOnce ==
   UNION { { V("C06_CatchStepsOnce", pid, t, {}) :
               t \in { x \in TaskKeys(pid) :
                        LET n == ND(pid, x)
-                           inst(id) == { u \in TaskKeys(pid) : u[1] = id /\ TS(pid, u).prev = x } IN
+                           \* (a step re-created by back/cancel is not another run of the catch)
+                           inst(id) == { u \in TaskKeys(pid) : u[1] = id /\ TS(pid, u).prev = x
+                                                                 /\ ~TS(pid, u).redo } IN
                        \E c \in DOMAIN n.ckids :
                          IF TS(pid, x).catchDone /\ TS(pid, x).caughtBy \in DOMAIN n.catches
                             /\ n.catches[TS(pid, x).caughtBy] = n.ckids[c].on
